@@ -932,7 +932,7 @@ impl Pool for PoolF {
             "abs" => freg_map!(self.regs[a - 1].clone(), v => fv_map!(v, p => p.abs())),
             "sqr" => freg_map!(self.regs[a - 1].clone(), v => fv_map!(v, p => p.sqr())),
             "shl" => freg_map!(self.regs[a - 1].clone(), v => fv_map!(v, p => if f == "a" { let mut x = p; x <<= n as isize; x } else { p << (n as isize) })),
-            "shr" => freg_map!(self.regs[a - 1].clone(), v => fv_map!(v, p => p >> (n as isize))),
+            "shr" => freg_map!(self.regs[a - 1].clone(), v => fv_map!(v, p => if f == "a" { let mut x = p; x >>= n as isize; x } else { p >> (n as isize) })),
             "withprec" => freg_map!(self.regs[a - 1].clone(), v => fv_map!(v, p => p.with_precision(n as usize).value())),
             "withmode" => freg_map!(&self.regs[a - 1], v => v.with_mode(f)),
             "withbase" => match self.regs[a - 1].clone() {
@@ -1126,7 +1126,13 @@ impl Pool for PoolQ {
         let r: QReg = match op {
             "const" => {
                 let (num, den) = (dec_i(&s["c"]["num"]), dec_u(&s["c"]["den"]));
-                if s["c"]["kind"] == "X" {
+                // the const constructors take double words: used when both parts fit
+                let small = u128::try_from(&den).ok().zip(u128::try_from(&UBig::try_from(if num < IBig::ZERO { -num.clone() } else { num.clone() }).unwrap()).ok());
+                if f == "pconst" && small.is_some() {
+                    let (d, n) = small.unwrap();
+                    let sign = if num < IBig::ZERO { Sign::Negative } else { Sign::Positive };
+                    if s["c"]["kind"] == "X" { QReg::X(Relaxed::from_parts_const(sign, n, d)) } else { QReg::R(RBig::from_parts_const(sign, n, d)) }
+                } else if s["c"]["kind"] == "X" {
                     if f == "signed" {
                         QReg::X(Relaxed::from_parts_signed(-num, -IBig::from(den)))
                     } else {
